@@ -887,7 +887,9 @@ func genParFacts() {
 	var all []*access
 	seen := map[string]bool{}
 	for _, r := range a.regions {
-		sortAcc(p, r.acc)
+		if r != calleeR {
+			sortAcc(p, r.acc)
+		}
 		for _, ac := range r.acc {
 			key := fmt.Sprintf("%d|%s|%d|%s|%v|%c|%s|%s|%v", r.id, p.base(ac.pos), p.line(ac.pos), ac.path, ac.elem, ac.rw, ac.cls, ac.how, ac.body.parent)
 			if seen[key] {
